@@ -84,6 +84,16 @@ def gen_c12(rng):
                 width = (mk['maxbits'] - 1) // 8 + 1
                 st['fn'] = rng.choice(['&', '|', '^'])
                 st['bits'] = sorted(set(rng.randrange(8 * width) for _ in range(rng.randint(1, 3))))
+                written = [v for st0 in hist if st0.get('op') == 'upd' and st0.get('h') == 0 and st0.get('values') is not None
+                           for v in (st0['values'] if isinstance(st0['values'], list) else [st0['values']])
+                           if isinstance(v, int) and not isinstance(v, bool) and v > 0]
+                if st['fn'] == '^' and written and width > 1 and rng.random() < 0.6:
+                    # xor that clears every bit a pixel has (in its low bytes) and sets one in a higher byte
+                    v = rng.choice(written)
+                    vb = [b for b in range(8 * width) if (v >> b) & 1]
+                    hi_byte = max(vb) // 8 + 1
+                    if vb and hi_byte < width:
+                        st['bits'] = sorted(set(vb + [rng.randrange(8 * hi_byte, 8 * width)]))
             elif mk['dtype'] in FLT_DT:
                 st['fn'] = rng.choice(['+', '-', '*', '/', '**'])
                 st['scalar'] = {'+': rng.choice([1.5, -2.0, 0.25, 3]), '-': rng.choice([1.5, -2.0, 0.25, 2]),
@@ -568,6 +578,24 @@ def gen_c13(rng):
             hist.append(st)
         hist.append(chk(0))
         hist.append(dict(op='chkbits', h=0, bitlists=[[b] for b in interesting] + [bitlist()]))
+    if rng.random() < 0.25:
+        # union / intersection operations on the sets (C06 on wide masks): the second map uses the bits of
+        # ONE byte only, so whole bytes are empty in one operand
+        mk2 = dict(mk, h=1)
+        hist.append(mk2)
+        byte = rng.randrange(width)
+        pix2 = rand_pixels(rng, mk, unique=False, nmax=10)
+        for st0 in hist:
+            if st0.get('op') == 'bits' and st0.get('h') == 0 and st0.get('which') == 'set' and rng.random() < 0.7:
+                pix2 = pix2 + list(st0['pixels'])[:4]
+        bits2 = sorted(set(8 * byte + rng.randrange(8) for _ in range(rng.randint(1, 3))))
+        hist.append(dict(op='bits', h=1, which='set', pixels=pix2, bits=bits2))
+        hist.append(chk(1))
+        name = rng.choice(['and_union', 'and_intersection', 'or_union', 'or_intersection', 'xor_union', 'xor_intersection'])
+        hs = [0, 1] if rng.random() < 0.5 else [1, 0]
+        hist.append(dict(op='mop', out=5, name=name, hs=hs))
+        hist.append(chk(5))
+        hist.append(dict(op='chkbits', h=5, bitlists=[[b] for b in interesting]))
     return hist
 
 
@@ -1140,6 +1168,27 @@ def gen_c17_deep(rng):
         rows.append([a, hi])
     val = True if mk['dtype'] == 'b' else 1
     return [mk, dict(op='rng', h=0, operation='replace', thr=0, ranges=rows, value=val, nomodel=True), dict(op='moc', h=0)]
+
+
+def gen_c17_big(rng):
+    """orders 15 and 16 (UNIQ numbers beyond 32 bits), every base pixel incl. the last ones: scattered pixels, one
+    full group of siblings (merged one level up) and one group with a missing sibling"""
+    order = rng.choice([15, 15, 16])
+    ns = 2 ** order
+    nc = rng.choice([32, 64, 128])
+    npix = 12 * ns * ns
+    pix = set()
+    for _ in range(rng.randint(1, 5)):
+        base = rng.choice([rng.randrange(12), 11, 8, 0])
+        pix.add(base * ns * ns + rng.randrange(ns * ns))
+    g = rng.randrange(npix // 4) * 4
+    pix.update(range(g, g + 4))
+    g2 = (rng.randrange(npix // 16) * 16)
+    grp = list(range(g2, g2 + 16))
+    grp.remove(rng.choice(grp))
+    if rng.random() < 0.5:
+        pix.update(grp)
+    return [dict(op='mocbig', nc=nc, ns=ns, pixels=sorted(pix), dtype=rng.choice(['b', 'f4', 'i2']))]
 
 
 # ------------------------------------------------------------------ C18
